@@ -214,6 +214,8 @@ pub struct RunCfg {
     /// raise signal 9 when pop_edges of an object of this rank class starts (0 = off): lets a
     /// template act while the library is in the middle of destructing that object
     pub signal_pop_class: u32,
+    /// stack of the janitor thread that collects at the end (0 = 2 MiB)
+    pub janitor_stack_kib: u32,
 }
 
 impl Default for RunCfg {
@@ -240,6 +242,7 @@ impl Default for RunCfg {
             signal_depth: 0,
             ord_mode: 0,
             signal_pop_class: 0,
+            janitor_stack_kib: 0,
         }
     }
 }
@@ -273,6 +276,9 @@ impl RunCfg {
         if self.signal_pop_class != 0 {
             j.put("signal_pop_class", self.signal_pop_class);
         }
+        if self.janitor_stack_kib != 0 {
+            j.put("janitor_stack_kib", self.janitor_stack_kib);
+        }
         if let Some(s) = &self.stall {
             j.put("stall", J::obj().set("victim", s.victim).set("site", s.site).set("nth", s.nth).set("k", s.k).set("release_signal", s.release_signal));
         }
@@ -301,6 +307,7 @@ impl RunCfg {
             signal_depth: j.getu("signal_depth") as u32,
             ord_mode: j.getu("ord_mode") as u32,
             signal_pop_class: j.getu("signal_pop_class") as u32,
+            janitor_stack_kib: j.getu("janitor_stack_kib") as u32,
         }
     }
 }
